@@ -41,6 +41,9 @@ OWNERS = {
     'dassh/table.py': ['C15', 'C02', 'C19'],
     'dassh/utils.py': ['C04', 'C16', 'C17'],
 }
+for _k in OWNERS:
+    if 'C18' not in OWNERS[_k]:
+        OWNERS[_k] = OWNERS[_k] + ['C18']     # crashes on valid input
 if opts.get('--files'):
     OWNERS = {k: v for k, v in OWNERS.items() if k in opts['--files'].split(',')}
 
@@ -176,18 +179,28 @@ def worker(job):
 def main():
     rnd = random.Random(SEED)
     pool = []
-    for rel in OWNERS:
-        src = open(os.path.join('/repo', rel)).read()
-        for m in candidates(rel, src):
-            pool.append((rel, m))
-    rnd.shuffle(pool)
-    # spread over files: at most N/len(OWNERS)*3 per file
-    cap = max(3, 3 * N // max(1, len(OWNERS)))
-    cnt, chosen = {}, []
-    for rel, m in pool:
-        if cnt.get(rel, 0) < cap and len(chosen) < N:
-            cnt[rel] = cnt.get(rel, 0) + 1
-            chosen.append((rel, m))
+    if opts.get('--rerun'):
+        # survivors (or any outcome class) of an earlier sweep, again
+        prev = json.load(open(opts['--rerun']))
+        want = opts.get('--only', 'SURVIVED').split(',')
+        chosen = [(m['file'], (m['line'], m['col'], m['old'], m['new'],
+                               m['function'], m['kind']))
+                  for m in prev['mutants'] if m['outcome'] in want
+                  and m['file'] in OWNERS]
+        pool = chosen
+    else:
+        for rel in OWNERS:
+            src = open(os.path.join('/repo', rel)).read()
+            for m in candidates(rel, src):
+                pool.append((rel, m))
+        rnd.shuffle(pool)
+        # spread over files: at most N/len(OWNERS)*3 per file
+        cap = max(3, 3 * N // max(1, len(OWNERS)))
+        cnt, chosen = {}, []
+        for rel, m in pool:
+            if cnt.get(rel, 0) < cap and len(chosen) < N:
+                cnt[rel] = cnt.get(rel, 0) + 1
+                chosen.append((rel, m))
     base = tempfile.mkdtemp(prefix='vmon_mutsweep_')
     copies = []
     try:
@@ -213,7 +226,7 @@ def main():
         out = {'seed': SEED, 'n': len(results), 'pool': len(pool), 'summary': summ, 'mutants': results,
                'repo_head': subprocess.check_output(['git', '-C', '/repo', 'rev-parse', '--short', 'HEAD'], text=True).strip()}
         os.makedirs(os.path.join(HERE, 'mutants'), exist_ok=True)
-        json.dump(out, open(os.path.join(HERE, 'mutants', 'sweep_%d.json' % SEED), 'w'), indent=1)
+        json.dump(out, open(os.path.join(HERE, 'mutants', 'sweep_%s.json' % opts.get('--tag', SEED)), 'w'), indent=1)
         print(json.dumps(summ))
         for r in results:
             if r['outcome'] in ('SURVIVED',) or r['outcome'].startswith('harness'):
